@@ -18,6 +18,7 @@ from ahbicht.expressions.condition_expression_parser import parse_condition_expr
 from ahbicht.expressions.expression_resolver import parse_expression_including_unresolved_subexpressions
 
 PARSERS = {"cond": parse_condition_expression_to_tree, "ahb": parse_ahb_expression_to_single_requirement_indicator_expressions}
+KEYWORD = {"cond": "condition_expression", "ahb": "ahb_expression"}  # the documented parameter names: callers may pass the string by keyword
 CACHE_SIZE = 1024
 
 
@@ -109,8 +110,13 @@ async def run_history(ctx, case):
     def parse(i, why):
         kind, s = pool[i][0], pool[i][1]
         ctx.evaluation()
-        out = capture(PARSERS[kind], s)
-        log.append(f"parse#{i}({why})")
+        if rng.random() < 0.2:
+            ctx.count("parse_calls_by_keyword")
+            out = capture(PARSERS[kind], **{KEYWORD[kind]: s})
+            log.append(f"parse#{i}({why}, string passed by keyword)")
+        else:
+            out = capture(PARSERS[kind], s)
+            log.append(f"parse#{i}({why})")
         if out[0] != "ok":
             fail(f"parse-raises-{type(out[1]).__name__}", f"{kind} parser on pool string #{i} {s!r} {describe(out)[:200]}")
             return None
